@@ -13,7 +13,7 @@ import ast
 import itertools
 
 from ..cfg import cfg_of
-from ..flow import flow_of, path_of
+from ..flow import deref, flow_of, path_of
 from ..loader import FUNC, AnalysisError, dotted, last_name, loc, short, walk_local, enclosing_func
 from ..util import ENGBASE, PATH, REPEX, TIS, all_calls, arg_for_param, kwarg, last_key, oriented, param_index
 from ..variants import B, K
@@ -143,6 +143,28 @@ def _under(fl, expr, at, depth=0):
         else:
             out.append((d, suffix))
     return out
+
+
+def _if_chain_status(f, flag_def, status_path):
+    """An if/elif/else chain `if <flag>: <status> = "ACC" ... else: <status> = x` that follows the
+    definition of the flag, as the expression its non-flag branches compute (nested IfExp);
+    None when there is no such chain."""
+    def as_expr(stmts):
+        if len(stmts) == 1 and isinstance(stmts[0], ast.Assign) and len(stmts[0].targets) == 1 and path_of(stmts[0].targets[0]) == status_path:
+            return stmts[0].value
+        if len(stmts) == 1 and isinstance(stmts[0], ast.If) and stmts[0].orelse:
+            b, o = as_expr(stmts[0].body), as_expr(stmts[0].orelse)
+            if b is not None and o is not None:
+                return ast.IfExp(test=stmts[0].test, body=b, orelse=o)
+        return None
+
+    for n in walk_local(f):
+        if isinstance(n, ast.If) and isinstance(n.test, ast.Name) and n.test.id == flag_def.path and n.orelse and n.lineno > flag_def.stmt.lineno:
+            b = as_expr(n.body)
+            o = as_expr(n.orelse)
+            if isinstance(b, ast.Constant) and b.value == "ACC" and o is not None:
+                return o
+    return None
 
 
 def _truth_table_ok(flag_def, else_expr):
@@ -278,7 +300,12 @@ def r91(ctx, moves):
                             if sd.kind == "assign" and isinstance(sd.value, ast.IfExp) and path_of(sd.value.test) == d.path and isinstance(sd.value.body, ast.Constant) and sd.value.body.value == "ACC":
                                 if cfg.dominates(d.at, sd.at) and {x.id for x, _ in fl.rd(d.path, sd.at)} == {d.id}:
                                     partner = sd
-                        if partner is None or not _truth_table_ok(d.value, partner.value.orelse):
+                        if partner is None:
+                            # statement form of the same thing: `if <flag>: status = "ACC" elif ...: status = a else: status = b`
+                            orelse_expr = _if_chain_status(f, d, sp)
+                            if orelse_expr is None or not _truth_table_ok(d.value, orelse_expr):
+                                ok_all = False
+                        elif not _truth_table_ok(d.value, partner.value.orelse):
                             ok_all = False
                     else:
                         ok_all = False
@@ -578,8 +605,17 @@ def r95(ctx):
 
     def comparisons(f, names):
         out = {}
+        ffl = flow_of(f)
+
+        def is_order(x, n):
+            try:
+                e_, _ = deref(ffl, x, ffl.cfg.node_of(n))
+            except Exception:
+                e_ = x
+            return "order" in ast.unparse(e_) or "order" in ast.unparse(x)
+
         for n in walk_local(f):
-            o = oriented(n, lambda x: "order" in ast.unparse(x))
+            o = oriented(n, lambda x: is_order(x, n))
             if o is not None and isinstance(o[2], ast.Name) and o[2].id in names:
                 n._oop = o[1]  # operator with the order parameter on the left, however the test is written
                 out[o[2].id] = n
@@ -671,7 +707,8 @@ def r911(ctx):
     budget = None
     for st in walk_local(f):
         if isinstance(st, ast.Assign) and isinstance(st.targets[0], ast.Name) and isinstance(st.value, ast.Call) and last_name(st.value) == "min":
-            for a in st.value.args:
+            for a0 in st.value.args:
+                a = deref(fl, a0, fl.cfg.node_of(st))[0]  # the budget may sit in a well-named local
                 if isinstance(a, ast.BinOp) and isinstance(a.op, ast.Add) and isinstance(a.left, ast.Call) and last_name(a.left) == "int":
                     budget = (st, a)
     if budget is None:
